@@ -212,6 +212,40 @@ class ArmsKaniUnit(KaniUnit):
         return r
 
 
+class JitKaniUnit(KaniUnit):
+    """E-X: machine code of the real x86-64 assemblers, lifted to Rust and
+    checked under Kani against the real kernels.  The lifted source is
+    regenerated and re-validated against the actual JIT function on every run."""
+
+    def __init__(self, prefix, kinds, functions, bounds, assumptions=None, stubs=None, **kw):
+        KaniUnit.__init__(self, "jitx", prefix, functions, bounds, assumptions, stubs, **kw)
+        self.name = "kani:jitx:%s" % prefix
+        self.kinds = kinds
+        self._problems = []
+        self._extra = {}
+
+    def expected(self, tier):
+        import jitgen
+        import tv_engine
+
+        self._problems = []
+        if not tv_engine.build_tvdump():
+            self._problems.append("tvdump build failed")
+            return []
+        names, problems, extra = jitgen.generate(self.kinds, tier)
+        self._problems += problems
+        self._extra = extra
+        return [n for n in names if n.startswith(self.prefix + "q_")]
+
+    def run(self, prop, tier, only=None):
+        self._tier = tier
+        r = KaniUnit.run(self, prop, tier, only)
+        for p in self._problems:
+            r.inconclusive.append("E-X: " + p)
+        r.extra.update(self._extra)
+        return r
+
+
 # --------------------------------------------------------------------------
 # Property table
 
